@@ -1,6 +1,11 @@
 package mse
 
 import (
+	"crypto/rc4"
+	"encoding/binary"
+	"io"
+	"math/big"
+
 	vrt "github.com/cenkalti/rain/v2/internal/zzvrt"
 )
 
@@ -54,3 +59,216 @@ func ZZReadSync8() { zzReadSync(8, 6) }
 
 // ZZReadSync20: 20-byte marker (hash), up to 10 bytes of padding.
 func ZZReadSync20() { zzReadSync(20, 10) }
+
+// ---- two-party handshake with the cryptographic primitives replaced ----
+//
+// Diffie-Hellman is replaced by "both sides derive the same opaque secret"
+// (DH agreement is the assumption), SHA-1 of the secret by fixed arbitrary
+// 20-byte strings per label, HASH('req2', SKEY) by an injective function of
+// the key (collision freedom), RC4 by XOR with an arbitrary keystream per key
+// label ("keyA"/"keyB") - both parties therefore see the same keystream for the
+// same key, which is all the protocol logic relies on. Pads are 0..2 bytes.
+
+var (
+	zzReq     map[string][]byte
+	zzStreams [3][]byte
+	zzCiphers []*zzCipher
+)
+
+type zzCipher struct {
+	c   *rc4.Cipher
+	id  int
+	pos int
+}
+
+//vrt:replace github.com/cenkalti/rain/v2/internal/mse.keyPair github.com/cenkalti/rain/v2/internal/mse.zzKeyPair ZZTwoParty ZZTwoPartyWrongKey
+func zzKeyPair() (*big.Int, *big.Int, error) { return new(big.Int), new(big.Int), nil }
+
+//vrt:replace github.com/cenkalti/rain/v2/internal/mse.bytesWithPad github.com/cenkalti/rain/v2/internal/mse.zzBytesWithPad ZZTwoParty ZZTwoPartyWrongKey
+func zzBytesWithPad(key *big.Int) []byte { return make([]byte, 96) }
+
+//vrt:replace (*math/big.Int).SetBytes github.com/cenkalti/rain/v2/internal/mse.zzSetBytes ZZTwoParty ZZTwoPartyWrongKey
+func zzSetBytes(z *big.Int, buf []byte) *big.Int { return z }
+
+//vrt:replace (*math/big.Int).Exp github.com/cenkalti/rain/v2/internal/mse.zzExp ZZTwoParty ZZTwoPartyWrongKey
+func zzExp(z, x, y, m *big.Int) *big.Int { return z }
+
+//vrt:replace github.com/cenkalti/rain/v2/internal/mse.hashInt github.com/cenkalti/rain/v2/internal/mse.zzHashInt ZZTwoParty ZZTwoPartyWrongKey
+func zzHashInt(prefix string, i *big.Int) []byte { return append([]byte(nil), zzReq[prefix]...) }
+
+//vrt:replace github.com/cenkalti/rain/v2/internal/mse.HashSKey github.com/cenkalti/rain/v2/internal/mse.zzHashSKey ZZTwoParty ZZTwoPartyWrongKey
+func zzHashSKey(key []byte) [20]byte {
+	var sum [20]byte
+	copy(sum[:], key)
+	return sum
+}
+
+//vrt:replace github.com/cenkalti/rain/v2/internal/mse.rc4Key github.com/cenkalti/rain/v2/internal/mse.zzRC4Key ZZTwoParty ZZTwoPartyWrongKey
+func zzRC4Key(prefix string, S *big.Int, sKey []byte) []byte {
+	if prefix == "keyA" {
+		return []byte{1}
+	}
+	return []byte{2}
+}
+
+//vrt:replace crypto/rc4.NewCipher github.com/cenkalti/rain/v2/internal/mse.zzNewCipher ZZTwoParty ZZTwoPartyWrongKey
+func zzNewCipher(key []byte) (*rc4.Cipher, error) {
+	c := &rc4.Cipher{}
+	zzCiphers = append(zzCiphers, &zzCipher{c: c, id: int(key[0])})
+	return c, nil
+}
+
+//vrt:replace (*crypto/rc4.Cipher).XORKeyStream github.com/cenkalti/rain/v2/internal/mse.zzXORKeyStream ZZTwoParty ZZTwoPartyWrongKey
+func zzXORKeyStream(c *rc4.Cipher, dst, src []byte) {
+	for _, zc := range zzCiphers {
+		if zc.c != c {
+			continue
+		}
+		if len(src) == 1024 {
+			zc.pos += 1024 // RC4-drop-1024: the discarded output is not materialised
+			return
+		}
+		ks := zzStreams[zc.id]
+		for i := range src {
+			dst[i] = src[i] ^ ks[zc.pos+i-1024]
+		}
+		zc.pos += len(src)
+		return
+	}
+	panic("zz: unknown cipher")
+}
+
+// binary.Read on the (blocking) stream, for the three types the handshake reads.
+//
+//vrt:replace encoding/binary.Read github.com/cenkalti/rain/v2/internal/mse.zzBinaryRead ZZTwoParty ZZTwoPartyWrongKey
+func zzBinaryRead(r io.Reader, order binary.ByteOrder, data any) error {
+	switch p := data.(type) {
+	case *CryptoMethod:
+		var b [4]byte
+		if _, err := io.ReadFull(r, b[:]); err != nil {
+			return err
+		}
+		*p = CryptoMethod(uint32(b[0])<<24 | uint32(b[1])<<16 | uint32(b[2])<<8 | uint32(b[3]))
+		return nil
+	case *uint16:
+		var b [2]byte
+		if _, err := io.ReadFull(r, b[:]); err != nil {
+			return err
+		}
+		*p = uint16(b[0])<<8 | uint16(b[1])
+		return nil
+	}
+	panic("zz: binary.Read of an unexpected type")
+}
+
+//vrt:replace github.com/cenkalti/rain/v2/internal/mse.padZero github.com/cenkalti/rain/v2/internal/mse.zzPadZero ZZTwoParty ZZTwoPartyWrongKey
+func zzPadZero() ([]byte, error) { return make([]byte, vrt.Choice("pad_length", 2)), nil }
+
+//vrt:replace github.com/cenkalti/rain/v2/internal/mse.padRandom github.com/cenkalti/rain/v2/internal/mse.zzPadRandom ZZTwoParty ZZTwoPartyWrongKey
+func zzPadRandom() ([]byte, error) { return zzPadZero() }
+
+func zzTwoParty(sameKey bool) {
+	zzReq = map[string][]byte{"req1": vrt.Bytes("hash_req1_S", 20), "req3": vrt.Bytes("hash_req3_S", 20)}
+	// keystreams: fixed, non-zero, non-repeating patterns (the protocol logic does not depend on
+	// their values; what is excluded is the 2^-64 coincidence of the encrypted verification
+	// constant occurring inside the padding). Pads are zero bytes; the req1 hash does not start with 0.
+	zzStreams[1] = make([]byte, 200)
+	zzStreams[2] = make([]byte, 200)
+	for i := range zzStreams[1] {
+		zzStreams[1][i] = byte(i%250 + 1)
+		zzStreams[2][i] = byte((i*7)%250 + 3)
+	}
+	vrt.Assume(zzReq["req1"][0] != 0)
+	zzCiphers = nil
+	keyA := vrt.Bytes("skey_initiator", 20)
+	keyB := keyA
+	if !sameKey {
+		keyB = vrt.Bytes("skey_responder", 20)
+		diff := false
+		for i := range keyA {
+			if keyA[i] != keyB[i] {
+				diff = true
+			}
+		}
+		vrt.Assume(diff)
+	}
+	ca, cb := vrt.NewPipe()
+	if vrt.Bool("byte_by_byte_transport") {
+		ca.OneByOne, cb.OneByOne = true, true
+	}
+	provide := CryptoMethod(vrt.Choice("crypto_provide", 3) + 1)
+	ia := vrt.Bytes("initial_payload", vrt.Choice("initial_payload_len", 2)*2)
+	sel := CryptoMethod(vrt.Choice("responder_selects", 4)) // 0 none, 1 plaintext, 2 rc4, 3 invalid (two bits)
+	a, b := NewStream(ca), NewStream(cb)
+	var selA CryptoMethod
+	var errA error
+	doneA := make(chan struct{})
+	go func() {
+		selA, errA = a.HandshakeOutgoing(keyA, provide, ia)
+		if errA != nil {
+			ca.Close()
+		}
+		close(doneA)
+	}()
+	var selB CryptoMethod
+	errB := b.HandshakeIncoming(
+		func(h [20]byte) []byte {
+			if h == zzHashSKey(keyB) {
+				return keyB
+			}
+			return nil
+		},
+		func(provided CryptoMethod) CryptoMethod {
+			selB = sel
+			return sel
+		})
+	if errB != nil {
+		cb.Close()
+	}
+	<-doneA
+	if !sameKey {
+		vrt.Assert(errA != nil || errB != nil, "handshake completed on both sides although the keys differ")
+		return
+	}
+	vrt.Assert((errA == nil) == (errB == nil), "handshake succeeded on one side only")
+	if errA != nil || errB != nil {
+		vrt.Cover(true, "negotiation refused")
+		return
+	}
+	vrt.Cover(selA == PlainText, "plaintext selected")
+	vrt.Cover(selA == RC4, "rc4 selected")
+	vrt.Assert(selA == selB && (selA == PlainText || selA == RC4) && selA&provide != 0, "the two sides do not agree on one offered cipher")
+	// initial payload, then a message in each direction, read back unchanged
+	if len(ia) > 0 {
+		got := make([]byte, len(ia))
+		n, err := io.ReadFull(b, got)
+		vrt.Assert(err == nil && n == len(ia), "initial payload not delivered")
+		k := vrt.Choice("witness_ia", len(ia))
+		vrt.Assert(got[k] == ia[k], "initial payload changed in transit")
+	}
+	m1 := vrt.Bytes("message_a_to_b", 3)
+	_, err := a.Write(m1)
+	vrt.Assert(err == nil, "write after handshake failed")
+	r1 := make([]byte, 3)
+	_, err = io.ReadFull(b, r1)
+	vrt.Assert(err == nil && r1[0] == m1[0] && r1[1] == m1[1] && r1[2] == m1[2], "bytes written by the initiator after the handshake are not read unchanged by the responder")
+	m2 := vrt.Bytes("message_b_to_a", 3)
+	_, err = b.Write(m2)
+	vrt.Assert(err == nil, "write after handshake failed")
+	r2 := make([]byte, 3)
+	_, err = io.ReadFull(a, r2)
+	vrt.Assert(err == nil && r2[0] == m2[0] && r2[1] == m2[1] && r2[2] == m2[2], "bytes written by the responder after the handshake are not read unchanged by the initiator")
+}
+
+// ZZTwoParty: initiator and responder (real HandshakeOutgoing / HandshakeIncoming)
+// over an in-memory pipe, same key: pads 0..1 on each of the four pads, initial
+// payload 0 or 2 bytes, offered ciphers {plain, rc4, both}, responder selecting
+// none / plaintext / rc4 / an invalid value, transport whole or byte by byte.
+//
+//vrt:cover ZZTwoParty plaintext selected
+//vrt:cover ZZTwoParty rc4 selected
+//vrt:cover ZZTwoParty negotiation refused
+func ZZTwoParty() { zzTwoParty(true) }
+
+// ZZTwoPartyWrongKey: different keys never complete on both sides.
+func ZZTwoPartyWrongKey() { zzTwoParty(false) }
